@@ -428,3 +428,20 @@ def run(ctx):
                         creators.setdefault(ckey, []).append(okc)
     for ckey, oks in sorted(creators.items()):
         ctx.inst("R13.2", "sent-funds-store:%s" % ckey, all(oks), "", "%d stores; %s" % (len(oks), "created from (info, config.eligible_collateral) with required = 0 / re-stored with the loaded asset" if all(oks) else "unexpected SentFunds store"))
+
+
+    # ---------------------------------------------------------------- R13.6
+    # the bank module rejects a zero-amount send where a cw20 token may accept the zero transfer: a fee message whose
+    # amount can be zero makes the native deployment refuse a trade its cw20 twin executes.  Same rule as R12.6.
+    from .nonzero import nonzero_instances
+
+    def is_fee_amount13(v):
+        vi = ix.inline(v)
+        if tag(vi) == "field" and payload(vi)[0] in ("spread_fee", "toll_fee"):
+            q_ = ix.parse_query(kids(vi)[0])
+            mv_ = ix.msg_variant(q_["msg"]) if q_ and q_.get("msg") is not None else None
+            return bool(mv_ and mv_[1] == "CalcFee")
+        return False
+    nonzero_instances(ctx, em, "R13.6", "every fee message of an Open / Close chain carries a fee that is non-zero by a path fact (a zero bank send is rejected where the cw20 transfer of zero is not)", 5,
+                      lambda ckey: ckey.startswith(("OpenPosition>", "ClosePosition>")), "the native deployment refuses the trade (zero bank send) while the cw20 twin executes it",
+                      select=is_fee_amount13)
